@@ -1,19 +1,9 @@
 import Driver.Song
-import Ctrmml.Spec.Expand
+import Ctrmml.Spec.Played
 import Ctrmml.Model.Optimizer
 import Ctrmml.Model.Player
 namespace Driver.OptD
 open Ctrmml Ctrmml.Expand Driver Tables
-
-/-- the played projection of a performance: everything except loop brackets and calls (which the
-optimiser is allowed to introduce), with the duration each item occupies -/
-def played (items : List Item) : List (Nat × Int × Nat × Nat) :=
-  items.filterMap fun i =>
-    let k := i.ev.kind
-    if k = .loopStart ∨ k = .loopEnd ∨ k = .loopBreak ∨ k = .jump then
-      -- a bracket or call carries no sound; any duration it has still counts
-      if i.src.on + i.src.off = 0 then none else some (ev_NOP, 0, i.src.on, i.src.off)
-    else some (i.ev.type, i.ev.param, i.src.on, i.src.off)
 
 def sortTracks (l : List (Nat × List Event)) : List (Nat × List Event) :=
   (l.toArray.qsort (fun a b => a.1 < b.1)).toList
